@@ -189,3 +189,11 @@ mod tests {
         assert_eq!(num_peers, 3usize);
     }
 }
+
+#[cfg(litep2p_verif)]
+impl KBucket {
+    /// Entries of the bucket in stored order (verification hook).
+    pub fn verif_nodes(&self) -> Vec<KademliaPeer> {
+        self.nodes.clone()
+    }
+}
